@@ -117,6 +117,7 @@ static std::string kv(const char *k, long v) { return std::string(",\"") + k + "
 static std::string kb(const char *k, bool v) { return std::string(",\"") + k + "\":" + (v ? "true" : "false"); }
 
 static void hook(const char *name, long a, long b) {
+    if (strncmp(name, "tp.", 3) && strncmp(name, "wt.", 3)) return;
     const bool pool = name[0] == 't';                    // "tp." ThreadPool, "wt." WorkThread
     const char *n = name + 3;
     const bool wpt = n[0] == 'w' && n[1] == '.';
@@ -124,7 +125,8 @@ static void hook(const char *name, long a, long b) {
     (void)pool;
     // points whose argument is the worker's thread token
     int w = 0;
-    if (wpt && strcmp(n, "w.pred") && strcmp(n, "w.pred_false")) w = worker_num(a);
+    if (wpt && !pool) w = tl_worker = 1;             // the single work thread
+    else if (wpt && strcmp(n, "w.pred") && strcmp(n, "w.pred_false")) w = worker_num(a);
     else if (wpt) w = tl_worker;
     schedule_point(name, role, b);
     uint64_t seq = g_seq.fetch_add(1);
@@ -149,7 +151,7 @@ static void hook(const char *name, long a, long b) {
     else if (!strcmp(n, "w.woken")) e = J("woken") + kv("w", w) + kb("flag", b != 0);
     else if (!strcmp(n, "w.pop")) e = J("pop") + kv("w", w) + kv("t", b ? task_of(b) : 0);
     else if (!strcmp(n, "w.unlocked")) e = J("unlocked") + kv("w", w);
-    else if (!strcmp(n, "w.mark")) e = J("mark") + kv("w", w) + kv("t", task_of(b));
+    else if (!strcmp(n, "w.mark")) { if (b != 0) e = J("mark") + kv("w", w) + kv("t", task_of(b)); }
     else if (!strcmp(n, "w.body_begin")) e = J("body_begin") + kv("w", w) + kv("t", task_of(b));
     else if (!strcmp(n, "w.body_end")) e = J("body_end") + kv("w", w) + kv("t", task_of(b));
     else if (!strcmp(n, "w.erase")) e = J("erase") + kv("w", w) + kv("t", task_of(b));
@@ -163,6 +165,7 @@ static void hook(const char *name, long a, long b) {
 struct TaskRec { std::atomic<int> body{0}, cb{0}; bool has_cb = false, cancelled = false, accepted = false; eventx::ThreadPool::TaskToken tok; };
 static event::Loop *g_loop = nullptr;
 static eventx::ThreadPool *g_pool = nullptr;
+static eventx::WorkThread *g_work = nullptr;        // "work" executions use the single work thread instead of the pool
 static std::vector<TaskRec *> g_tasks;       // index = task number (1-based)
 static bool g_ready = false;
 static std::atomic<bool> g_in_call{false};
@@ -200,7 +203,8 @@ static void do_exec(int k, int prio, int dur_us, bool cb) {
     CallGuard cg;
     // the "exec" event is emitted inside execute() by the hook; the cb flag is emitted just before as its own event
     emit(J("submit") + kv("t", k) + kb("cb", cb) + kv("prio", prio) + "}");
-    if (cb) r->tok = g_pool->execute(body, done, prio); else r->tok = g_pool->execute(body, prio);
+    if (g_work) { if (cb) r->tok = g_work->execute(body, done); else r->tok = g_work->execute(body); }
+    else if (cb) r->tok = g_pool->execute(body, done, prio); else r->tok = g_pool->execute(body, prio);
     r->accepted = !r->tok.isNull();
     if (!r->accepted) emit(J("rejected") + kv("t", k) + "}");
 }
@@ -208,27 +212,28 @@ static void do_status(int k) {
     if (k >= (int)g_tasks.size() || !g_tasks[k]->accepted) return;
     CallGuard cg;
     tl_query_seq = 0;
-    auto s = g_pool->getTaskStatus(g_tasks[k]->tok);
-    const char *a = s == eventx::ThreadPool::TaskStatus::kWaiting ? "waiting" : s == eventx::ThreadPool::TaskStatus::kExecuting ? "executing" : "notfound";
+    int si = g_work ? (int)g_work->getTaskStatus(g_tasks[k]->tok) : (int)g_pool->getTaskStatus(g_tasks[k]->tok);
+    const char *a = si == (int)eventx::ThreadPool::TaskStatus::kWaiting ? "waiting" : si == (int)eventx::ThreadPool::TaskStatus::kExecuting ? "executing" : "notfound";
     emit_at(tl_query_seq ? tl_query_seq : g_seq.fetch_add(1), J("status") + kv("t", k) + ",\"ans\":\"" + a + "\"}");
 }
 static void do_cancel(int k) {
     if (k >= (int)g_tasks.size() || !g_tasks[k]->accepted) return;
     CallGuard cg;
     tl_query_seq = 0;
-    int a = g_pool->cancel(g_tasks[k]->tok);
+    int a = g_work ? g_work->cancel(g_tasks[k]->tok) : g_pool->cancel(g_tasks[k]->tok);
     if (a == 0) g_tasks[k]->cancelled = true;
     emit_at(tl_query_seq ? tl_query_seq : g_seq.fetch_add(1), J("cancel") + kv("t", k) + kv("ans", a) + "}");
 }
 static void do_init(int mn, int mx) {
     CallGuard cg;
+    if (g_work) return;
     bool ok = g_pool->initialize(mn, mx);
     emit(J("init_ret") + kb("ok", ok) + "}");
     if (ok) g_ready = true;
 }
 static void do_cleanup() {
     CallGuard cg;
-    g_pool->cleanup();
+    if (g_work) g_work->cleanup(); else g_pool->cleanup();
     emit(J("cleanup_ret") + "}");
     g_ready = false;
 }
@@ -268,7 +273,13 @@ static void run_execution(const json &x) {
     g_tasks.clear(); g_tasks.push_back(new TaskRec);
     { std::lock_guard<std::mutex> g(g_mapm); g_task_of_token.clear(); g_worker_of_token.clear(); g_next_worker = 0; }
     g_ready = false;
-    g_pool = new eventx::ThreadPool(g_loop);
+    const bool work = x.value("kind", std::string("pool")) == "work";
+    if (work) {
+        // the constructor starts the one worker: same data model with min = max = 1
+        emit(J("spawn") + kv("w", 1) + kv("n", 1) + "}"); emit(J("init") + kv("min", 1) + kv("max", 1) + "}");
+        { std::lock_guard<std::mutex> g(g_mapm); g_next_worker = 1; }
+        g_work = new eventx::WorkThread(g_loop); g_pool = nullptr; g_ready = true;
+    } else { g_work = nullptr; g_pool = new eventx::ThreadPool(g_loop); }
     bool dropped_since_init = false;
     for (auto &op : x["ops"]) {
         std::string o = op["o"];
@@ -288,7 +299,7 @@ static void run_execution(const json &x) {
     (void)dropped_since_init;
     if (g_ready) { wait_quiescent(); do_cleanup(); }
     for (int i = 0; i < 3; ++i) spin_loop();          // drain posted completion callbacks / join closures
-    {   CallGuard cg; delete g_pool; g_pool = nullptr; }
+    {   CallGuard cg; delete g_pool; g_pool = nullptr; delete g_work; g_work = nullptr; }
     for (int i = 0; i < 2; ++i) spin_loop();
     emit(J("end") + kv("gate_timeouts", g_gate_timeouts.load()) + "}");
     flush_events(true);
@@ -299,12 +310,15 @@ static json random_execution(vh::Rng &rng, uint64_t seed) {
     json ops = json::array();
     static const int cfgs[][2] = {{0, 1}, {0, 2}, {1, 1}, {1, 2}, {0, 3}, {2, 4}, {1, 3}};
     auto &c = cfgs[rng.below(7)];
-    ops.push_back({{"o", "init"}, {"min", c[0]}, {"max", c[1]}});
+    const bool work = rng.chance(25);
+    if (work) x["kind"] = "work";
+    else ops.push_back({{"o", "init"}, {"min", c[0]}, {"max", c[1]}});
     int nt = 0, nops = (int)rng.range(4, 30);
     bool ready = true;
     for (int i = 0; i < nops; ++i) {
         int r = (int)rng.below(100);
         if (!ready) {
+            if (work) break;                 // a cleaned-up work thread cannot be re-initialised
             if (rng.chance(70)) { auto &d = cfgs[rng.below(7)]; ops.push_back({{"o", "init"}, {"min", d[0]}, {"max", d[1]}}); ready = true; }
             else ops.push_back({{"o", "spin"}, {"n", 1}});
             continue;
